@@ -3,7 +3,7 @@
 // C16 harness: a requester actor issuing reentrant requests to a responder actor that replies only when
 // the case script says so.  One actor system per process, one requester/responder pair per case.
 //
-// case line:  mode=<a|s|-> max=<n> [to=<a|g>] | <op> <op> ...   (to=g: the responder is a grain, requests go through RequestGrain)
+// case line:  mode=<a|s|-> max=<n> [to=<a|g>] | <op> <op> ...   (to=g: the responder is a grain, requests go through RequestGrain; to=n: the actor responder is addressed by name, RequestName)
 //
 //	mode   actor-level reentrancy: a AllowAll, s StashNonReentrant, - not enabled ; max = MaxInFlight (0 = no limit)
 //	ops (k = one digit label):
@@ -154,6 +154,7 @@ type requester struct {
 	self      *actor.PID
 	to        *actor.PID
 	toGrain   *actor.GrainIdentity
+	byName    bool
 	mu        sync.Mutex
 	log       []string
 	calls     map[int]actor.RequestCall
@@ -229,9 +230,12 @@ func (q *requester) Receive(ctx *actor.ReceiveContext) {
 			opts = append(opts, actor.WithReentrancyMode(reentrancy.Off))
 		}
 		var call actor.RequestCall
-		if q.toGrain != nil {
+		switch {
+		case q.toGrain != nil:
 			call = ctx.RequestGrain(q.toGrain, &reqPayload{K: m.k}, opts...)
-		} else {
+		case q.byName:
+			call = ctx.RequestName(q.to.Name(), &reqPayload{K: m.k}, opts...)
+		default:
 			call = ctx.Request(q.to, &reqPayload{K: m.k}, opts...)
 		}
 		err := actor.VerifC16TakeErr(ctx)
@@ -277,9 +281,10 @@ func handle(line string) string {
 	if len(cfg) > 0 && cfg[0] == "who=g" {
 		return handleGrain(cfg[1:], ops)
 	}
-	grainTarget := false
-	if len(cfg) == 3 && (cfg[2] == "to=g" || cfg[2] == "to=a") {
+	grainTarget, byName := false, false
+	if len(cfg) == 3 && (cfg[2] == "to=g" || cfg[2] == "to=a" || cfg[2] == "to=n") {
 		grainTarget = cfg[2] == "to=g"
+		byName = cfg[2] == "to=n"
 		cfg = cfg[:2]
 	}
 	if len(cfg) != 2 || !strings.HasPrefix(cfg[0], "mode=") || !strings.HasPrefix(cfg[1], "max=") {
@@ -309,7 +314,7 @@ func handle(line string) string {
 	if err != nil {
 		return "spawn-error " + err.Error()
 	}
-	req := &requester{to: rp, calls: map[int]actor.RequestCall{}, releaseCh: make(chan struct{}, 64)}
+	req := &requester{to: rp, byName: byName, calls: map[int]actor.RequestCall{}, releaseCh: make(chan struct{}, 64)}
 	gresp := &grainResponder{replies: map[int]*actor.GrainReply{}}
 	var gid *actor.GrainIdentity
 	if grainTarget {
